@@ -115,7 +115,9 @@ static char *decc(const char *t, size_t *len)
 }
 
 /* ---------- callback ---------- */
-static TL int cb_mode;            /* 0 none, 1 accept all, 2 reject n-th, 3 reject suffix */
+static TL int cb_mode;            /* 0 none, 1 accept all, 2 reject n-th, 3 reject suffix, 4 accept all after reading another
+                                     file through the library, 5 accept all, the n-th call removes a file first */
+static TL int log_open;
 static TL int cb_n, cb_calls;
 static TL char *cb_suffix;
 static TL int cb_token;           /* its address is the data pointer */
@@ -124,6 +126,14 @@ static bool the_cb(const char *filename, const void *data)
   printf("cb "); put_hex(filename); printf(" %d\n", data == (const void *)&cb_token);
   int k = cb_calls++;
   if (cb_mode == 2 && k == cb_n) return false;
+  if (cb_mode == 4) { /* a policy callback which loads its own configuration with the library while it is being asked */
+    int keep = log_open; log_open = 0;
+    econf_file *t = NULL;
+    if (econf_readFile(&t, cb_suffix, "=", "#") == ECONF_SUCCESS) { char *v = NULL; econf_getStringValue(t, NULL, "allow", &v); free(v); }
+    econf_freeFile(t);
+    log_open = keep;
+  }
+  if (cb_mode == 5 && k == cb_n) unlink(cb_suffix);
   if (cb_mode == 3) {
     size_t lf = strlen(filename), ls = strlen(cb_suffix);
     if (ls <= lf && strcmp(filename + lf - ls, cb_suffix) == 0) return false;
@@ -138,12 +148,13 @@ static int cb_setup(const char *t)
   if (strcmp(t, "cb:all") == 0) cb_mode = 1;
   else if (strncmp(t, "cb:rej:", 7) == 0) { cb_mode = 2; cb_n = atoi(t + 7); }
   else if (strncmp(t, "cb:suf:", 7) == 0) { cb_mode = 3; cb_suffix = dec(t + 7, NULL); }
+  else if (strncmp(t, "cb:nest:", 8) == 0) { cb_mode = 4; cb_suffix = dec(t + 8, NULL); }
+  else if (strncmp(t, "cb:rm:", 6) == 0) { cb_mode = 5; cb_n = atoi(t + 6); cb_suffix = dec(strchr(t + 6, ':') + 1, NULL); }
   else { fprintf(stderr, "bad cb spec %s\n", t); exit(3); }
   return 1;
 }
 
 /* fopen logging through -Wl,--wrap=fopen */
-static TL int log_open;
 FILE *__real_fopen(const char *path, const char *mode);
 FILE *__wrap_fopen(const char *path, const char *mode)
 {
